@@ -22,6 +22,8 @@ func init() {
 			{"C16.tmp-files", "abandoned temp chunk files are removed before the extension filter", 2, c08Prefix},
 			{"C16.listing-errors", "listing/walk errors fail Prune", 4, c16ListingErrors},
 			{"C16.pool-reentrancy", "no nested pool token acquisition", 4, func(c *Ctx) { c.poolReentrancy("SFTPStore", "pool"); c.poolReentrancy("RemoteSSH", "pool") }},
+			{"C16.name-roundtrip", "object-store idFromName undoes nameFromID (whole-string prefix and extension removal)", 3, c16NameRoundtrip},
+			{"C16.ctor-verifies", "Verify relies on GetChunk: the verifying constructors reject unreadable data and the zero id", 2, c03CtorVerifies},
 			{"C16.verify", "verify removes exactly the invalid chunks, only with repair", 3, c16Verify},
 		},
 	})
@@ -447,4 +449,60 @@ func c16Verify(c *Ctx) {
 	if n == 0 {
 		c.bad("LocalStore.Verify.walk:feeds-parsed-ids", walker.Pos(), "the walk feeds no ids to the workers")
 	}
+}
+
+// c16NameRoundtrip: object-store keys.  idFromName must undo exactly what nameFromID does:
+// the key handed to strings.Split is TrimSuffix(TrimPrefix(name, s.prefix), <ext>) - the prefix
+// and the extension are removed as whole strings.  In addition no strings.Trim/TrimLeft/
+// TrimRight anywhere in the library is given a non-constant cut set (a cut set is a set of
+// characters, not a prefix; with a store prefix such as "store/" it eats leading hex digits of
+// the chunk directory and the object is then skipped as "not a chunk" and never pruned).
+func c16NameRoundtrip(c *Ctx) {
+	n := 0
+	for _, key := range []string{"S3Store.idFromName", "GCStore.idFromName"} {
+		fn := c.mustFn(key)
+		if fn == nil {
+			continue
+		}
+		splits := calls(fn, named("strings.Split"))
+		if len(splits) != 1 {
+			c.bad(key+":shape", fn.Pos(), "expected one strings.Split of the key, found %d", len(splits))
+			continue
+		}
+		n++
+		okAll, why := true, ""
+		for _, l := range leaves(splits[0].Common().Args[0]) {
+			ts, _ := callOf(l)
+			if ts == nil || callee(ts) != "strings.TrimSuffix" {
+				okAll, why = false, "the key is not the result of strings.TrimSuffix: "+l.String()
+				continue
+			}
+			for _, e := range leaves(ts.Call.Args[1]) {
+				if _, isConst := e.(*ssa.Const); !isConst {
+					okAll, why = false, "the extension removed is not one of the extension constants"
+				}
+			}
+			for _, l2 := range leaves(ts.Call.Args[0]) {
+				tp, _ := callOf(l2)
+				if tp == nil || callee(tp) != "strings.TrimPrefix" {
+					okAll, why = false, "the store prefix is not removed with strings.TrimPrefix: "+l2.String()
+					continue
+				}
+				if !isParam(tp.Call.Args[0], fn.Params[1]) || !hasOrigin(tp.Call.Args[1], func(o string) bool { return strings.HasSuffix(o, ".prefix") }) {
+					okAll, why = false, "TrimPrefix is not applied to (name, s.prefix)"
+				}
+			}
+		}
+		c.verdict(okAll, key+":inverse-of-nameFromID", splits[0].Pos(), "id = TrimSuffix(TrimPrefix(name, s.prefix), ext) split at '/'", why+": idFromName no longer undoes nameFromID; listed chunks are skipped as 'not a chunk' and survive pruning")
+	}
+	cut := 0
+	for _, fn := range c.Funcs {
+		for _, call := range calls(fn, named("strings.Trim", "strings.TrimLeft", "strings.TrimRight", "bytes.Trim", "bytes.TrimLeft", "bytes.TrimRight")) {
+			cut++
+			a := call.Common().Args
+			_, isConst := a[1].(*ssa.Const)
+			c.verdict(isConst, fmt.Sprintf("%s:%s-cutset", fnKey(fn), callee(call)), call.Pos(), "constant cut set", "a variable is used as the cut set of "+callee(call)+": it is treated as a set of characters, not as a prefix/suffix, and removes more than the prefix")
+		}
+	}
+	c.ok("name-roundtrip", 0, "%d idFromName implementation(s), %d cut-set calls", n, cut)
 }
